@@ -162,6 +162,14 @@ Theorem C29_doer_exit : forall c st op w,
 Proof. exact doer_exit_is_exit. Qed.
 Print Assumptions C29_doer_exit.
 
+(* The doer's exit clears by the Filer's .temp whether or not the Filer is
+   still opened (something else may have closed it in between): the result,
+   the object and the tree do not depend on .opened. *)
+Theorem C29_doer_exit_ignores_opened : forall c st w,
+  run_hop2 c st true HDoerExit w = run_hop2 c st false HDoerExit w.
+Proof. reflexivity. Qed.
+Print Assumptions C29_doer_exit_ignores_opened.
+
 (* Every history of reopen / close / remake / context-manager exit / doer
    enter / doer exit calls after a successful constructor, call by call. *)
 Theorem C29_history_doer : forall c w p w1 hs,
